@@ -436,6 +436,7 @@ class C13(_OffsetLaws, QProp):
     def cases(self, rng, tier):
         v = vocab()
         items = []
+        extra_cases = []
         facts = load_facts(60 if tier == "quick" else 800, rng)
 
         def operand(dimlike=None):
@@ -461,6 +462,22 @@ class C13(_OffsetLaws, QProp):
                 a, b = Q.Qty("3", [(reps[i], 1)]), Q.Qty("7", [(reps[j], 1)])
                 items.append((B("*", a, b), [], "pair-mul"))
                 items.append((B("*", b, a), [], "pair-mul"))
+        # a·b = b·a when one factor is a fact PHRASE of several words and the operator is written
+        # without blanks (`speed of light*2`, `2*speed of light`, `speed of light * 2`)
+        self.generic_groups = True
+        phrases = ["speed of light", "mass earth", "radius moon", "standard gravity g0", "population finland", "mass of the sun", "pi"]
+        gi = 0
+        for ph in phrases:
+            for k in ("2", "7.5", "(3)", "pi", "mass moon"):
+                for op in "*/":
+                    gi += 1
+                    spell = [f"{ph} {op} {k}", f"{ph}{op}{k}", f"{ph} {op}{k}", f"{ph}{op} {k}"]
+                    if op == "*":
+                        spell += [f"{k}*{ph}", f"{k} * {ph}"]
+                    for t in spell:
+                        c = Case("query " + C.hexs(t), "fact-tight-operator", t)
+                        c.group = gi
+                        extra_cases.append(c)
         # sums and differences of quantities whose units cancel completely but differ in scale
         # (`5 min/s + 1 hr/s` is 65 min/s)
         for _ in range(200 if tier == "quick" else 3000):
@@ -488,7 +505,7 @@ class C13(_OffsetLaws, QProp):
                 items.append((lhs, [], "law-lhs"))
                 if rhs is not None:
                     items.append((rhs, [], "law-rhs"))
-        cases = q_cases(items)
+        cases = q_cases(items) + extra_cases
         # the same pair sweep judged by the HUMAN reference table (names, dimensions, scales),
         # independent of the extracted tables and of the word validation
         from . import refsweep as R
